@@ -596,6 +596,25 @@ theorem refines_propSet (s : State) (h : Inv s) (o : Nat) (key : String) (ix : I
   apply hne
   rw [← hp0.key, hb, hp.key]
 
+/-- **refines (`atoms[index] = other`)** — in a state satisfying the invariant a returning
+    `__setitem__` (also `prop(index=, value=Atoms)`, `atoms_ix[index] = …`) is the record update
+    "atom `sel.pos[j]` of the target := atom `j` of the donor" for every property (donor values as they
+    were before the call — also when donor and target overlap —, broadcast and cast to the target's
+    dtype; later duplicates win); objects and Systems are untouched; buffers of no target property are
+    unchanged. -/
+theorem refines_setItem (s : State) (h : Inv s) (o : Nat) (ix : Index) (src : Nat) (s' : State)
+    (hrun : setItem o ix src s = (.ok (), s')) :
+    ∃ sel, resolve (s.obj o).natoms (atomsIndex ix) = .ok sel ∧ s'.objs = s.objs ∧ s'.syss = s.syss ∧
+      (∀ p ∈ (s.obj o).props, ∃ a newRows, (s.obj src).find p.key = some a ∧
+        AssignedRows s p.arr sel (arrVal s a) newRows ∧
+        arrRows s' p.arr = writeRows (arrRows s p.arr) (sel.pos.zip newRows)) ∧
+      (∀ c : Arr, (∀ p ∈ (s.obj o).props, c.buf ≠ p.arr.buf) → arrRows s' c = arrRows s c) := by
+  obtain ⟨⟨κ, hinv⟩, _⟩ := h
+  have := setItem_refines hinv o ix src
+  unfold Post at this
+  rw [hrun] at this
+  exact this rfl
+
 /-- a refused indexed write changes nothing. -/
 theorem propSet_error_unchanged (s : State) (o : Nat) (key : String) (ix : Index) (v : Val) (e : Err) (s' : State)
     (hrun : propSet o key (some ix) v s = (.error e, s')) : s' = s := by
@@ -718,6 +737,33 @@ theorem new_fresh_unchanged (s : State) (h : Inv s) (natoms : Option Int) (atype
   rw [hrun] at this
   obtain ⟨_, hf, hfr, _, _⟩ := this.2 o' rfl
   exact frame_fresh_meaning s s' h o' hf hfr
+
+/-! ## System-level accessors delegate to the Atoms-level ones -/
+
+/-- `System.atoms_prop` without `scale`, `atoms_ix[...] = …` are the `Atoms` operations on the system's
+    atoms: the refinement theorems above apply verbatim with `o := (s.sys i).atoms`. -/
+theorem system_ops_delegate (off : Bool) (s : State) (i : Nat) (k : String) (ix : Option Index) (jx : Index) (v : Val)
+    (src : Nat) :
+    (run off (.sysPropGet i k ix) s).2 = (propGet (s.sys i).atoms k ix s).2 ∧
+    (run off (.sysPropSet i k ix v false) s).2 = (propSet (s.sys i).atoms k ix v s).2 ∧
+    (run off (.sysPropSetAtoms i ix src false) s).2 = (propSetAtoms (s.sys i).atoms ix src s).2 ∧
+    (run off (.sysPropGetAtoms i jx) s).2 = (propGetAtoms (s.sys i).atoms jx s).2 ∧
+    (run off (.ixSet i jx (.inl src)) s).2 = (setItem (s.sys i).atoms jx src s).2 ∧
+    (run off (.ixSet i jx (.inr src)) s).2 = (setItem (s.sys i).atoms jx (s.sys src).atoms s).2 := by
+  have key : ∀ {α : Type} (m : M α) (g : α → Out) (st : State),
+      ((do let a ← m; pure (g a) : M Out) st).2 = (m st).2 := by
+    intro α m g st
+    show (M.bind m (fun a => M.pure (g a)) st).2 = (m st).2
+    unfold M.bind M.pure
+    cases m st with
+    | mk r s' => cases r <;> rfl
+  refine ⟨?_, ?_, ?_, ?_, ?_, ?_⟩
+  · exact key (propGet (s.sys i).atoms k ix) Out.val s
+  · exact key (propSet (s.sys i).atoms k ix v) (fun _ => Out.unit) s
+  · exact key (propSetAtoms (s.sys i).atoms ix src) (fun _ => Out.unit) s
+  · exact key (propGetAtoms (s.sys i).atoms jx) Out.obj s
+  · exact key (setItem (s.sys i).atoms jx src) (fun _ => Out.unit) s
+  · exact key (setItem (s.sys i).atoms jx (s.sys src).atoms) (fun _ => Out.unit) s
 
 /-! ## non-vacuity: concrete histories of the model (`K := Rat`) on which the hypotheses hold -/
 
